@@ -470,6 +470,21 @@ func (w *c12World) one(c *kernel.RunCtx, s *c12Scenario, resps []c12Resp, fname 
 	}
 	// second phase on the SAME objects: an in-place edit that keeps every count, then Fund again
 	c.Count("probe.refund_after_inplace_edit", 1)
+	// What a FAILED Fund leaves in the input list is not specified (a batch with an unusable UTXO may be added up
+	// to that UTXO or not at all), so the model's inputs are taken over from the transaction as it now is; after a
+	// successful Fund they have just been checked to be equal anyway.
+	model.Inputs = nil
+	for _, in := range tx.Inputs {
+		cp := &bt.Input{PreviousTxOutIndex: in.PreviousTxOutIndex, PreviousTxSatoshis: in.PreviousTxSatoshis, SequenceNumber: in.SequenceNumber}
+		if in.PreviousTxScript != nil {
+			cp.PreviousTxScript = scriptPtr(*in.PreviousTxScript)
+		}
+		if in.UnlockingScript != nil {
+			cp.UnlockingScript = scriptPtr(*in.UnlockingScript)
+		}
+		_ = cp.PreviousTxIDAdd(append([]byte(nil), in.PreviousTxID()...))
+		model.Inputs = append(model.Inputs, cp)
+	}
 	if s.requote > 0 {
 		// the long-lived quote receives new rates between the two calls, by one of its update routes
 		rates = [4]int{s.stdSat2, s.stdBytes2, s.dataSat2, s.dataBytes2}
